@@ -143,7 +143,10 @@ pub fn c11(ctx: &mut Ctx, tier: &str, seed: u64) {
                 }
             }
             // a relative path has no answer here: an error, not a panic
-            if unreadable && crate::util::quiet_catch(|| (UnixPath::new("a").absolutize().is_err(), Utf8WindowsPath::new("a").absolutize().is_err())).ok() != Some((true, true)) {
+            if unreadable && crate::util::quiet_catch(|| (UnixPath::new("a").absolutize().is_err(), Utf8WindowsPath::new("a").absolutize().is_err()
+                && TypedPath::unix("a").absolutize().is_err() && TypedPath::windows("a").absolutize().is_err()
+                && Utf8TypedPath::unix("a").absolutize().is_err() && Utf8TypedPath::windows("a").absolutize().is_err()
+                && TypedPathBuf::from_unix("a").absolutize().is_err())).ok() != Some((true, true)) {
                 ctx.fail("absolutize-of-relative-without-cwd-is-an-error", None, "x.absolutize-in-a-vanished-cwd u 61".into(), String::new());
             }
             std::env::set_current_dir(&old).expect("restore cwd");
